@@ -321,20 +321,27 @@ def execute(p, res):
                     v(vname, "batch=stack", f"members {sel} as a {vname} view (strides {tuple(Xv.stride())}): output differs from the members processed alone", {"sel": list(sel)})
                     break
         res.bump("view_presentations", views)
-    # (B1,B2,n): agree or raise (constraints are excluded: their item is everything behind the first dimension by definition)
+    # (B1,B2,n): agree or raise (constraints are excluded: their item is everything behind the first dimension by definition); every
+    # B1 in 1..3 x B2 in {1,2,3,4,8,16} (sizes that coincide with internal table sizes such as 2^k are where accidental broadcasting hides)
     if not is_2d_member and kind != "constraint":
-        for sel in list(product(range(len(pool)), repeat=4))[::7]:
-            X = torch.stack([pool[i] for i in sel]).reshape(2, 2, -1)
-            try:
-                Y = call(X)
-            except Exception:  # noqa: BLE001
-                res.rejected += 1
-                continue
-            res.ev(1, nontrivial=1, transitions=0)
-            Yf = Y.reshape(4, -1) if Y.numel() == 4 * ref[0].numel() else None
-            if Yf is None or tuple(Y.shape[:2]) != (2, 2) or any(not same(Yf[j], ref[i].reshape(-1), exact, tol) for j, i in enumerate(sel)):
-                v("B1xB2", "layout-agree-or-raise", f"members {sel} as a (2,2,n) tensor: output {tuple(Y.shape)} differs from the members processed alone", {"sel": list(sel)})
+        stop = False
+        for B1, B2 in product((1, 2, 3), (1, 2, 3, 4, 8, 16)):
+            if stop:
                 break
+            for off in (0, 1):
+                sel = [(off + 3 * j + j // 2) % len(pool) for j in range(B1 * B2)]
+                X = torch.stack([pool[i] for i in sel]).reshape(B1, B2, -1)
+                try:
+                    Y = call(X)
+                except Exception:  # noqa: BLE001
+                    res.rejected += 1
+                    continue
+                res.ev(1, nontrivial=1, transitions=0)
+                Yf = Y.reshape(B1 * B2, -1) if Y.numel() == B1 * B2 * ref[0].numel() else None
+                if Yf is None or tuple(Y.shape[:2]) != (B1, B2) or any(not same(Yf[j], ref[i].reshape(-1), exact, tol) for j, i in enumerate(sel)):
+                    v("B1xB2", "layout-agree-or-raise", f"members {sel} as a ({B1},{B2},n) tensor: output {tuple(Y.shape)} differs from the members processed alone", {"sel": list(sel), "B1": B1, "B2": B2})
+                    stop = True
+                    break
     # (B, b*n) several blocks per row: agree with per-block evaluation or raise (block codes / modems concatenate along the last dim)
     if not is_2d_member:
         if kind in ("encoder", "inverse", "decoder", "decoder-int32", "decoder-int64", "modulator", "demod-hard", "demod-soft"):   # (not decoder-errors: two concatenated outputs)
